@@ -172,6 +172,19 @@ def P_resolve(ctx, t):
     call(ctx, t, "resolve", "sd", lambda: s.resolve(b"urn:nfc:sn:other"), sock=s)
 
 
+def _silent_resolver(name):
+    # several threads wait in resolve() for names the peer never answers when the link ends: every one of them must
+    # come back (None), not only the first that is woken
+    def prog(ctx, t):
+        s = nfc.llcp.Socket(ctx.llc, nfc.llcp.DATA_LINK_CONNECTION)
+        call(ctx, t, "resolve", "sd", lambda: s.resolve(name), sock=s)
+    return prog
+
+
+P_resolve_a, P_resolve_b, P_resolve_c = (_silent_resolver(b"urn:nfc:sn:quiet-a"), _silent_resolver(b"urn:nfc:sn:quiet-b"),
+                                         _silent_resolver(b"urn:nfc:sn:quiet-c"))
+
+
 def P_poll_send(ctx, t):
     s = nfc.llcp.Socket(ctx.llc, nfc.llcp.LOGICAL_DATA_LINK)
     call(ctx, t, "bind", "ldl3", lambda: s.bind(36), sock=s)
@@ -272,7 +285,7 @@ def _rejected_client(sid):
 
 P_dlc_frmr_peer, P_dlc_frmr_local, P_dlc_frmr_ui = _rejected_client("dlc7"), _rejected_client("dlc8"), _rejected_client("dlc9")
 
-PROGRAMS = dict(wks_clash=P_wks_clash, dlc_server2=P_dlc_server2, dlc_frmr_peer=P_dlc_frmr_peer, dlc_frmr_local=P_dlc_frmr_local, dlc_frmr_ui=P_dlc_frmr_ui,
+PROGRAMS = dict(resolve_a=P_resolve_a, resolve_b=P_resolve_b, resolve_c=P_resolve_c, wks_clash=P_wks_clash, dlc_server2=P_dlc_server2, dlc_frmr_peer=P_dlc_frmr_peer, dlc_frmr_local=P_dlc_frmr_local, dlc_frmr_ui=P_dlc_frmr_ui,
                 ldl_recv=P_ldl_recv, ldl_poll=P_ldl_poll, dlc_client=P_dlc_client, dlc_client_name=P_dlc_client_name,
                 dlc_server=P_dlc_server, resolve=P_resolve, poll_send=P_poll_send,
                 dlc_poll_recv=P_dlc_poll_recv, dlc_poll_acks=P_dlc_poll_acks, dlc_poll_send=P_dlc_poll_send,
@@ -302,7 +315,7 @@ def peer_for(progs, cut):
         script[4] = [pdu.UnnumberedInformation(33, 41, b"dgram1")]
     if "ldl_poll" in progs:
         script[5] = [pdu.UnnumberedInformation(34, 41, b"dgram2")]
-    return LP.PeerModel(script=script)
+    return LP.PeerModel(script=script, answer_snl=not any(x.startswith("resolve_") for x in progs))
 
 
 def run_scenario(progs, cause, cut, chooser, max_steps=6000):
@@ -559,6 +572,7 @@ SCENARIOS_QUICK = [
     ("late_bound_recvfrom",), ("late_sendto",), ("early_then_late",),
     ("dlc_poll_recv",), ("dlc_poll_acks",), ("dlc_poll_send",),
     ("dlc_frmr_peer",), ("dlc_frmr_local",), ("dlc_frmr_ui",), ("dlc_server2",), ("wks_clash",),
+    ("resolve_a", "resolve_b"), ("resolve_a", "resolve_b", "resolve_c"),
     ("ldl_recv", "dlc_client"), ("dlc_server", "resolve"), ("ldl_poll", "dlc_client_name"),
 ]
 
